@@ -308,7 +308,152 @@ pub fn run(ctx: &mut Ctx) {
     }
   }
   m.ctx.sample("update: NOP in work RAM at PC, or a halted/stopped step: Core::update() must leave the state the reference predicts for (instruction, 4 clocks of devices, dispatch)");
+  // ---- pushes that land on a device register whose WRITE raises a request of its own
+  // (TAC with the selected divider bit high and TIMA = 0xFF; LYC written with the current
+  // line; STAT's coincidence enable set while LY == LYC). The devices are part of the
+  // reference here: the dispatch steps of the statement are carried out through the real
+  // bus on a second, identically primed core, and the two cores must agree.
+  let mut primed = 0u64;
+  let mut primed_push_raised_a_request = 0u64;
+  {
+    let u = unit;
+    unit += 1;
+    if m.ctx.mine(u) {
+      m.ctx.intent2(u, 2);
+      use crate::mem::{memory_read_byte, memory_write_byte, MemoryAreas};
+      use crate::timing::ClockCycles;
+      let mut refs: [Box<Core>; 2] = [support::core_from_image(&image), support::core_from_image(&image)];
+      let prime = |c: &mut Core, kind: usize| {
+        c.memory.io = IO::new();
+        c.memory.oam_dma = None;
+        let mp = &mut c.memory as *mut MemoryAreas;
+        match kind {
+          0 => {
+            memory_write_byte(mp, 0xff06, 0x33);
+            memory_write_byte(mp, 0xff07, 0x05);
+            c.memory.run_clock_cycles(ClockCycles(8)); // divider bit 3 is high now
+            memory_write_byte(mp, 0xff05, 0xff);
+          }
+          1 => {
+            memory_write_byte(mp, 0xff40, 0x91);
+            c.memory.run_clock_cycles(ClockCycles(456 * 20));
+            memory_write_byte(mp, 0xff45, 0xc8); // no line has this number
+            memory_write_byte(mp, 0xff41, 0x40);
+          }
+          _ => {
+            memory_write_byte(mp, 0xff40, 0x91);
+            c.memory.run_clock_cycles(ClockCycles(456 * 20));
+            let ly = memory_read_byte(mp, 0xff44);
+            memory_write_byte(mp, 0xff45, ly);
+          }
+        }
+      };
+      for kind in 0..3usize {
+        let target: u16 = [0xff07, 0xff45, 0xff41][kind];
+        // the byte that lands on the register
+        let mut values: Vec<u8> = vec![0x00, 0x04, 0x05, 0x06, 0x07, 0x01, 0x40, 0x48, 0xff, 0x80, 0x3f];
+        {
+          prime(&mut m.core, kind);
+          let mp = &mut m.core.memory as *mut MemoryAreas;
+          values.push(memory_read_byte(mp, 0xff44));
+          values.push(memory_read_byte(mp, 0xff44).wrapping_add(1));
+        }
+        for &val in values.iter() {
+          for hit_with_high in [true, false].iter() {
+            for &(iflag, ie) in [(0x10u8, 0x14u8), (0x10, 0x16), (0x10, 0x1f), (0x01, 0x07), (0x08, 0x0e), (0x04, 0x04), (0x02, 0x02), (0x10, 0x10)].iter() {
+              for ime in [1u8, 0, 2].iter() {
+                let (pc, sp) = if *hit_with_high { (((val as u16) << 8) | 0x34, target.wrapping_add(1)) } else { (0x1200 | val as u16, target.wrapping_add(2)) };
+                let s = St { iflag, ie, ime: *ime, run: (val % 3) as u8, pc, sp, cycles: 0 };
+                // the real thing
+                prime(&mut m.core, kind);
+                load(&mut m.core, &s);
+                m.core.handle_interrupt();
+                // the statement, step by step, on two reference cores (decision after the first / second push)
+                let mut agree = false;
+                let mut detail = String::new();
+                for (ri, r) in refs.iter_mut().enumerate() {
+                  prime(r, kind);
+                  load(r, &s);
+                  let pending = r.memory.io.interrupt_flag.as_u8() & r.memory.io.interrupt_mask & 0x1f;
+                  if pending != 0 {
+                    r.run_state = RunState::Run;
+                    if s.ime == 1 {
+                      r.interrupts_enabled = InterruptState::Disabled;
+                      let mp = &mut r.memory as *mut MemoryAreas;
+                      let sp1 = s.sp.wrapping_sub(1);
+                      let sp2 = s.sp.wrapping_sub(2);
+                      memory_write_byte(mp, sp1, (s.pc >> 8) as u8);
+                      let after_first = r.memory.io.interrupt_flag.as_u8() & r.memory.io.interrupt_mask & 0x1f;
+                      memory_write_byte(mp, sp2, s.pc as u8);
+                      let after_second = r.memory.io.interrupt_flag.as_u8() & r.memory.io.interrupt_mask & 0x1f;
+                      if after_first != pending || after_second != pending {
+                        if ri == 0 {
+                          primed_push_raised_a_request += 1;
+                        }
+                      }
+                      let decided = if ri == 0 { after_first } else { after_second };
+                      r.registers.sp = sp2 as u32;
+                      r.registers.cycles = s.cycles + 5;
+                      if decided == 0 {
+                        r.registers.ip = 0;
+                      } else {
+                        let bit = decided.trailing_zeros();
+                        r.registers.ip = 0x40 + 8 * bit;
+                        let f = r.memory.io.interrupt_flag.as_u8() & !(1u8 << bit);
+                        r.memory.io.interrupt_flag = InterruptFlag::new(f);
+                      }
+                    }
+                  }
+                  let view = |c: &mut Core| -> [u32; 11] {
+                    let mp = &mut c.memory as *mut MemoryAreas;
+                    [
+                      c.memory.io.interrupt_flag.as_u8() as u32,
+                      c.memory.io.interrupt_mask as u32,
+                      support::ime_code(&c.interrupts_enabled) as u32,
+                      support::run_code(&c.run_state) as u32,
+                      c.registers.ip,
+                      c.registers.sp,
+                      c.registers.cycles,
+                      memory_read_byte(mp, 0xff05) as u32,
+                      memory_read_byte(mp, 0xff07) as u32,
+                      memory_read_byte(mp, 0xff41) as u32,
+                      memory_read_byte(mp, 0xff45) as u32,
+                    ]
+                  };
+                  let a = view(&mut m.core);
+                  let b = view(r);
+                  if a == b {
+                    agree = true;
+                    if ri == 1 {
+                      m.accept_second += 1;
+                    }
+                    break;
+                  }
+                  if ri == 0 {
+                    detail = format!("handle_interrupt [IF IE IME run PC SP cyc TIMA TAC STAT LYC] = {:X?}, statement carried out through the bus = {:X?}", a, b);
+                  }
+                }
+                primed += 1;
+                m.evaluations += 1;
+                if !agree {
+                  m.ctx.violation(
+                    &format!("C07:primed:{}:{}", ["tac", "lyc", "stat"][kind], if *hit_with_high { "high-byte-lands-on-register" } else { "low-byte-lands-on-register" }),
+                    &format!("device primed so that a write of {:02X} to {:04X} may raise a request; IF={:02X} IE={:02X} IME={} PC={:04X} SP={:04X}: {}", val, target, iflag, ie, ime, pc, sp, detail),
+                  );
+                }
+              }
+            }
+          }
+        }
+      }
+      m.core.memory.io = IO::new();
+      m.core.memory.oam_dma = None;
+      m.ctx.distinct_key(hash_words(&[9]));
+    }
+  }
   let _ = unit;
+  m.ctx.count("primed-device-cases", primed);
+  m.ctx.count("primed-device-cases:push-changed-the-pending-set", primed_push_raised_a_request);
   m.ctx.count("evaluations", m.evaluations);
   m.ctx.count("dispatches", m.dispatches);
   m.ctx.count("dispatches-cancelled-by-push", m.cancellations);
